@@ -28,6 +28,7 @@ type Program struct {
 	specDir  string // override dir for contract files (development)
 	pureExt  map[string]bool
 	immutHeaps map[string]bool // field heaps declared immutable
+	immutNonNil map[string]bool // ... and never nil once their constructor has returned (`f!`)
 	models   map[string]modelFn
 	inlinableMemo map[*ssa.Function]bool
 }
@@ -131,9 +132,22 @@ func loadProgram(repoDir, specDir string, patterns []string) (*Program, error) {
 			}
 			for _, f := range fields {
 				found := false
+				// `immutable T: f!` — f is also never nil once the constructing function has returned
+				nonNil := false
+				for _, nf := range ps.ImmutNonNil[tn] {
+					if nf == f {
+						nonNil = true
+					}
+				}
 				for i := 0; i < st.NumFields(); i++ {
 					if st.Field(i).Name() == f {
 						P.immutHeaps[fieldHeapName(obj.Type(), i)] = true
+						if nonNil {
+							if P.immutNonNil == nil {
+								P.immutNonNil = map[string]bool{}
+							}
+							P.immutNonNil[fieldHeapName(obj.Type(), i)] = true
+						}
 						found = true
 					}
 				}
